@@ -65,13 +65,24 @@ type wordState struct {
 	last  []int64 // dts of the previous unit of each track
 	nextA []int64 // audio: dts of the next contiguous access unit
 	begun []bool
-	seq   int
-	start int64 // ms
+	// h264b (reordered frames): highest presentation time / picture order count so far, and the display slot an
+	// "M" frame left open for the "b" frame that follows it in decode order
+	top, hole       []int64
+	topPOC, holePOC []int
+	seq             int
+	start           int64 // ms
 }
+
+const noHole = int64(-1) << 62
 
 func newWordState(cfg muxCfg, startMS int64) *wordState {
 	n := len(cfg.Tracks)
-	return &wordState{cfg: cfg, last: make([]int64, n), nextA: make([]int64, n), begun: make([]bool, n), start: startMS}
+	ws := &wordState{cfg: cfg, last: make([]int64, n), nextA: make([]int64, n), begun: make([]bool, n), start: startMS,
+		top: make([]int64, n), hole: make([]int64, n), topPOC: make([]int, n), holePOC: make([]int, n)}
+	for i := range ws.hole {
+		ws.hole[i] = noHole
+	}
+	return ws
 }
 
 func (ws *wordState) unit(s sym) wunit {
@@ -103,13 +114,42 @@ func (ws *wordState) unit(s sym) wunit {
 		case "j":
 			d = S + 1501
 		}
-		if !ws.begun[s.T] {
-			u.DTS = startTicks
-			ws.begun[s.T] = true
+		if t.Kind == "h264b" {
+			// frames are written in decode order; u.DTS is the presentation time handed to WriteH264
+			T := s.T
+			if !ws.begun[T] {
+				ws.begun[T] = true
+				ws.top[T] = startTicks - d
+			}
+			k := s.K
+			if k == "b" && ws.hole[T] == noHole {
+				k = "n"
+			}
+			switch k {
+			case "R", "r", "P":
+				u.DTS, u.POC = ws.top[T]+d, 0
+				ws.top[T], ws.topPOC[T], ws.hole[T] = u.DTS, 0, noHole
+			case "M": // displayed after a frame that is written later
+				ws.hole[T], ws.holePOC[T] = ws.top[T]+d, ws.topPOC[T]+2
+				u.DTS, u.POC = ws.top[T]+2*d, ws.topPOC[T]+4
+				ws.top[T], ws.topPOC[T] = u.DTS, u.POC
+			case "b": // fills the open display slot
+				u.DTS, u.POC = ws.hole[T], ws.holePOC[T]
+				ws.hole[T] = noHole
+			default:
+				u.DTS, u.POC = ws.top[T]+d, ws.topPOC[T]+2
+				ws.top[T], ws.topPOC[T], ws.hole[T] = u.DTS, u.POC, noHole
+			}
+			ws.last[T] = ws.top[T]
 		} else {
-			u.DTS = ws.last[s.T] + d
+			if !ws.begun[s.T] {
+				u.DTS = startTicks
+				ws.begun[s.T] = true
+			} else {
+				u.DTS = ws.last[s.T] + d
+			}
+			ws.last[s.T] = u.DTS
 		}
-		ws.last[s.T] = u.DTS
 		switch s.K {
 		case "R":
 			u.RA, u.Params = true, 1
@@ -122,10 +162,6 @@ func (ws *wordState) unit(s sym) wunit {
 			u.RA, u.Params = true, 2
 		}
 		return u
-	}
-	samples := int64(1024)
-	if t.Kind == "opus" {
-		samples = 960
 	}
 	n := s.N
 	if n <= 0 {
@@ -143,7 +179,7 @@ func (ws *wordState) unit(s sym) wunit {
 	}
 	u.DTS = ws.nextA[s.T]
 	u.NAU = n
-	ws.nextA[s.T] += int64(n) * samples
+	ws.nextA[s.T] += ws.cfg.audioSpan(t, n)
 	ws.last[s.T] = u.DTS
 	return u
 }
@@ -319,6 +355,9 @@ func e1RunWordInner(sc e1Scen, word []sym, scratch string, props map[string]bool
 			continue
 		}
 		if !r.apply(ws.unit(s)) {
+			if r.pruned {
+				return r, i, nil
+			}
 			if !strings.Contains(r.writeErr, e1KnownWriteErr) && !strings.Contains(r.writeErr, "maximum segment size") {
 				r.add("ALL", "write-error", "write %d (%s) failed: %s; ops %s", r.writeErrAt, s, r.writeErr, r.opsString())
 			}
@@ -374,6 +413,18 @@ func e1Explore(c *vh.Ctx, sc e1Scen) {
 		c.Count("uris_fetched", int64(len(r.uriList)))
 		if r.nProbes > 0 {
 			c.Count("requests_probed", int64(r.nProbes))
+		}
+		if r.pruned {
+			c.Count("words_ended_by_underivable_dts", 1)
+		}
+		if sc.Cfg.Tracks[sc.Cfg.leading()].Kind == "h264b" {
+			for _, us := range r.model.emitted {
+				for _, u := range us {
+					if u.ptsOff != 0 {
+						c.Count("reordered_units_decoded_and_compared", 1)
+					}
+				}
+			}
 		}
 		c.Outcome(sc.Cfg.String() + "|" + r.outcome())
 		if c.WantSample() && len(r.model.cuts) >= 2 {
